@@ -3,6 +3,7 @@ package sim
 import (
 	"context"
 	"encoding/json"
+	"errors"
 	"fmt"
 	"strings"
 	"time"
@@ -48,6 +49,9 @@ var c16Queries = []string{
 	`mutation { m1(v:1) { id } m2(v:2) { name } s1(v:3) }`,
 	`{ u { ... on A { aOnly leafy { s } } ... on B { bOnly } } c { matrix cOnly } }`,
 	`query($st:Stamp, $f:Filter){ echo(st:$st, f:$f) x1 }`,
+	// nothing here has an explicit resolver: the default resolver reads the root
+	// value, whose properties are user functions that may block
+	`{ plainRoot { name n tag } }`,
 }
 
 // variables per query (custom scalar values are coerced by user code that is a
@@ -56,7 +60,7 @@ var c16Vars = map[string]map[string]interface{}{
 	`query($st:Stamp, $f:Filter){ echo(st:$st, f:$f) x1 }`: {"st": "v1", "f": map[string]interface{}{"st": "v2", "min": 2}},
 }
 
-var c16CtxKinds = []string{"cancel", "deadline", "expired", "parent"}
+var c16CtxKinds = []string{"cancel", "deadline", "expired", "parent", "cause"}
 
 // number of resolver invocations per query (measured once, lazily)
 var c16Counts []int
@@ -124,7 +128,7 @@ func (p c16) Gen(seed uint64, enum int, tier string) json.RawMessage {
 	r := NewRNG(seed)
 	s.Query = c16Queries[r.Intn(len(c16Queries))]
 	s.Entry = []string{"do", "plan", "cache"}[r.Intn(3)]
-	s.CtxKind = append(c16CtxKinds, "none")[r.Intn(5)]
+	s.CtxKind = append(append([]string(nil), c16CtxKinds...), "none")[r.Intn(len(c16CtxKinds)+1)]
 	switch r.Intn(4) {
 	case 1:
 		s.Faults = map[string]string{"R@*": FObserveCtx}
@@ -197,7 +201,7 @@ func (c16) Run(t TestingT, scn json.RawMessage, tape *Tape) *Outcome {
 	soloW := NewWorld("A")
 	soloRC := &ReqCtx{Task: "solo", W: soloW, Faults: expandStar(faults), AllThunk: sc.AllThunk, RootTok: Tok{T: "Query"}}
 	vars := c16Vars[sc.Query]
-	solo := MarshalResult(graphql.Do(graphql.Params{Schema: soloW.Schema, RequestString: sc.Query, VariableValues: vars, Context: WithReq(context.Background(), soloRC)}))
+	solo := MarshalResult(graphql.Do(graphql.Params{Schema: soloW.Schema, RequestString: sc.Query, RootObject: c16RootObject(), VariableValues: vars, Context: WithReq(context.Background(), soloRC)}))
 
 	s := NewSim(tape)
 	s.Stickiness = sc.Sticky
@@ -217,6 +221,8 @@ func (c16) Run(t TestingT, scn json.RawMessage, tape *Tape) *Outcome {
 		}
 	}
 	var fakeStart time.Time
+	var returned *graphql.Result
+	late := ""
 	pan := Bubble(t, s, func() {
 		fakeStart = time.Now()
 		var w *World
@@ -237,6 +243,11 @@ func (c16) Run(t TestingT, scn json.RawMessage, tape *Tape) *Outcome {
 		case "parent":
 			ctx, cancel = context.WithCancel(parent)
 			doCancel = parentCancel
+		case "cause":
+			// cancelled with a private cause: the response still carries ctx.Err()
+			cctx, ccancel := context.WithCancelCause(parent)
+			ctx, cancel = cctx, func() { ccancel(nil) }
+			doCancel = func() { ccancel(errors.New("private cause of the cancellation")) }
 		case "deadline":
 			ctx, cancel = context.WithTimeout(parent, 5*time.Second)
 			doCancel = func() { time.Sleep(6 * time.Second) }
@@ -286,6 +297,7 @@ func (c16) Run(t TestingT, scn json.RawMessage, tape *Tape) *Outcome {
 			}
 			s.Gate("c1", "client:call", "")
 			var res *graphql.Result
+			rootObj := c16RootObject()
 			if sc.Entry == "cache" {
 				cache := graphql.NewPlanCache(graphql.PlanCacheOptions{Normalize: true})
 				pr := cache.Get(&w.Schema, sc.Query, "")
@@ -293,7 +305,7 @@ func (c16) Run(t TestingT, scn json.RawMessage, tape *Tape) *Outcome {
 					tc.Out["r"] = "cache error"
 					return
 				}
-				res = graphql.ExecutePlan(pr.Plan, graphql.ExecuteParams{Schema: w.Schema, Args: mergeArgs(vars, pr.SynthArgs), Context: rctx})
+				res = graphql.ExecutePlan(pr.Plan, graphql.ExecuteParams{Schema: w.Schema, Root: rootObj, Args: mergeArgs(vars, pr.SynthArgs), Context: rctx})
 			} else if sc.Entry == "plan" {
 				doc, err := parseDoc(sc.Query)
 				if err != nil {
@@ -305,11 +317,12 @@ func (c16) Run(t TestingT, scn json.RawMessage, tape *Tape) *Outcome {
 					tc.Out["r"] = "plan error"
 					return
 				}
-				res = graphql.ExecutePlan(plan, graphql.ExecuteParams{Schema: w.Schema, Args: vars, Context: rctx})
+				res = graphql.ExecutePlan(plan, graphql.ExecuteParams{Schema: w.Schema, Root: rootObj, Args: vars, Context: rctx})
 			} else {
-				res = graphql.Do(graphql.Params{Schema: w.Schema, RequestString: sc.Query, VariableValues: vars, Context: rctx})
+				res = graphql.Do(graphql.Params{Schema: w.Schema, RequestString: sc.Query, RootObject: rootObj, VariableValues: vars, Context: rctx})
 			}
 			tc.Out["r"] = MarshalResult(res)
+			returned = res
 			kind := "other"
 			if res != nil && res.Data == nil && len(res.Errors) == 1 {
 				kind = "err1:" + res.Errors[0].Message
@@ -321,6 +334,11 @@ func (c16) Run(t TestingT, scn json.RawMessage, tape *Tape) *Outcome {
 		s.Run()
 		if err := ctx.Err(); err != nil {
 			ctxErrText = err.Error()
+		}
+		// the result handed to the caller, looked at again after everything the
+		// request started has finished
+		if returned != nil && s.finished["c1"] {
+			late = MarshalResult(returned)
 		}
 		o.FakeNanos = int64(time.Since(fakeStart))
 	})
@@ -380,7 +398,7 @@ func (c16) Run(t TestingT, scn json.RawMessage, tape *Tape) *Outcome {
 		if n > 0 {
 			w2 := NewWorld("A")
 			rc2 := &ReqCtx{Task: "solo", W: w2, Faults: f2, AllThunk: sc.AllThunk, RootTok: Tok{T: "Query"}}
-			solo = MarshalResult(graphql.Do(graphql.Params{Schema: w2.Schema, RequestString: sc.Query, VariableValues: vars, Context: WithReq(context.Background(), rc2)}))
+			solo = MarshalResult(graphql.Do(graphql.Params{Schema: w2.Schema, RequestString: sc.Query, RootObject: c16RootObject(), VariableValues: vars, Context: WithReq(context.Background(), rc2)}))
 		}
 	}
 	got, finished := outs["c1"]["r"], outs["c1"] != nil
@@ -454,6 +472,9 @@ func (c16) Run(t TestingT, scn json.RawMessage, tape *Tape) *Outcome {
 			}
 		}
 	}
+	if late != "" && late != got {
+		o.Violate("C16/result-changed-after-return", "the result the call returned was modified after the return\n returned: %s\n    later: %s", got, late)
+	}
 	if strings.Contains(got, "!marshal") {
 		o.Violate("C16/malformed", "result not serialisable: %s", got)
 	}
@@ -514,4 +535,18 @@ func isExactlyError(result, msg string) bool {
 		}
 	}
 	return true
+}
+
+// c16RootObject is the root value of every C16 request: the default-resolved
+// field plainRoot reads it; its properties are user functions (scheduling points).
+func c16RootObject() map[string]interface{} {
+	prop := func(v interface{}) func() interface{} {
+		return func() interface{} {
+			if cs := Cur(); cs != nil {
+				cs.Gate("", "resolver:default-property", "")
+			}
+			return v
+		}
+	}
+	return map[string]interface{}{"plainRoot": map[string]interface{}{"name": prop("root-name"), "n": prop(7), "tag": prop("root-tag")}}
 }
